@@ -261,3 +261,44 @@ def dmrg_protocol(ctx) -> None:
            else "convergence_check is not |current − previous| < tolerance with a False default")
     # DMRG leaves the result normalised/canonical: minimize_energy_pair returns the Krylov ground state (unit norm)
     ctx.floor("BATHS-pairing", 2)
+
+
+def dmrg_gate_everywhere(ctx) -> None:
+    """However DMRGBackendImpl.progress gets there, a time step is completed only on a path where
+    convergence_check(...) was taken true; timestep_complete is called from sweep_complete only."""
+    prog = ctx.prog
+    K = prog.cls(DMRG)
+    f = K.methods["progress"]
+
+    def inline(callee, recv, depth):
+        return recv == SELF and callee.name not in ("save_simulation", "fill_results", "update_H", "init_baths",
+                                                    "_get_interaction_matrix", "convergence_check")
+
+    it = Interp(prog, K, inline=inline, max_depth=8)
+    paths = [p for p in it.run(f) if p.status == "return"]
+    ctx.count("paths", len(paths))
+    bad = []
+    n = 0
+    for p in paths:
+        idx = [e for e in p.events if e.kind == "setattr" and e.name == "_timestep_index" and e.target[0] == SELF]
+        if not idx:
+            continue
+        n += 1
+        ok = any(strip_typed(c)[0] == "mcall" and strip_typed(c)[2].endswith("convergence_check") and t
+                 for c, t in p.cond_log[: idx[0].ncond])
+        minimised = any(e.kind == "call" and e.name.endswith("minimize_energy_pair") for e in p.events)
+        if not ok or not minimised:
+            conds = "; ".join(f"{show(c)[:40]}={t}" for c, t in p.cond_log[: idx[0].ncond])
+            bad.append(f"[{conds}] (energy minimisation on the path: {minimised})")
+    ctx.require(n >= 1, "DMRG.progress: no path completes a step")
+    ctx.ob("CONV-gate", "DMRG progress completes steps only when converged", f.loc(), not bad,
+           "every path of progress() that advances the time step has minimised the energy and passed convergence_check"
+           if not bad else
+           f"DMRGBackendImpl.progress advances the time step on a path without a passed convergence_check: {bad[0]} — "
+           f"the state reported for that step is not the ground state of its Hamiltonian")
+    from .once import _self_call_sites
+    sites = {s for s in _self_call_sites(prog, [K], "timestep_complete")}
+    ok = sites <= {"DMRGBackendImpl.sweep_complete", "DMRGBackendImpl.timestep_complete"}  # an override may chain to super()
+    ctx.ob("CONV-gate", "DMRG timestep_complete call sites", K.module.relpath + f":{K.node.lineno}", ok,
+           "within DMRGBackendImpl, timestep_complete is called from sweep_complete only" if ok else
+           f"within DMRGBackendImpl, timestep_complete is called from {sorted(sites)}")
